@@ -68,6 +68,20 @@ def canonical_columns_hold(ibits, shape, nsub):
     return True, '', pos
 
 
+def apply_strip_equal(c):
+    """Every character entry becomes 'OS' behind a per-subset prefix of white space: equal after str.strip(), different bytes."""
+    pads = [b'', b' ', b'  ', b'\t', b'\n ', b'\x0c']
+    o = c['seed'] % 5
+    for j, toks in enumerate(c['val_toks']):
+        for i, t in enumerate(toks):
+            if t[0] == 'y':
+                n = len(bytes.fromhex(t[1:])) if t != 'y-' else 0
+                if n >= 4:
+                    nb = (pads[(j + o) % len(pads)] + b'OS')[:n]
+                    toks[i] = 'y' + nb.hex()
+                    c['py_vals'][j][i] = nb
+
+
 def run(ctx):
     ctx.rule = ('same template/value space as C01 (values in the representable range of each field or missing; per-subset '
                 'varying replication factors and bitmaps); each (template, values) pair is encoded by Encoder().process and by '
@@ -107,8 +121,19 @@ def run(ctx):
         # first in the list: encoded before any other message of this run has touched these elements
         cases.insert(k, {'ids': ids, 'version': 33, 'edition': 4, 'nsub': rng.choice([1, 2]), 'compressed': False, 'forced': '-',
                          'seed': rng.randrange(1, 2 ** 32), 'maxrep': 3, 'features': {'missing-string-two-widths': 1}, 'shared': False})
+    # compressed character columns whose entries differ ONLY in leading blanks / other surrounding white space (equal after
+    # str.strip()): they differ, so the column has a width and every entry is written
+    for k in range(ctx.n(8, 80)):
+        st = [1015, 1019, 1011, 1018][k % 4]
+        ids = [[1001, st, 12101], [208006, st, 208000, st], [st, st], [205004, st]][(k // 4) % 4]
+        cases.append({'ids': ids, 'version': 33, 'edition': 4, 'nsub': rng.choice([2, 3, 4]), 'compressed': True, 'forced': '-',
+                      'seed': rng.randrange(1, 2 ** 32), 'maxrep': 3, 'features': {'strings-equal-after-strip': 1}, 'shared': True})
     P.attach_templates(cases)
     P.run_gen(cases)
+    for c in cases:
+        if c['features'].get('strings-equal-after-strip') and c.get('val_toks'):
+            apply_strip_equal(c)
+            c['strip_equal'] = True
     for c in cases:
         if c['features'].get('missing-string-two-widths') and c.get('val_toks'):
             for j, toks in enumerate(c['val_toks']):
@@ -119,7 +144,7 @@ def run(ctx):
             c['missing_strings'] = True
     import random
     for c in cases:
-        if c.get('missing_strings'):
+        if c.get('missing_strings') or c.get('strip_equal'):
             continue
         if c.get('val_toks') and (c['features'].get('wide-character-field') or rng.random() < 0.3):
             # derived from the case's own seed so that a replay varies the same strings the same way
@@ -148,7 +173,8 @@ def run(ctx):
         ctx.count((tuple(c['ids']), c['seed'], c['edition']), nontriv)
         case = {'ids': c['ids'], 'seed': c['seed'], 'forced': c['forced'], 'nsub': c['nsub'],
                 'version': c['version'], 'edition': c['edition'], 'compressed': c['compressed'],
-                'vary_strings': bool(c.get('vary_strings')), 'missing_strings': bool(c.get('missing_strings'))}
+                'vary_strings': bool(c.get('vary_strings')), 'missing_strings': bool(c.get('missing_strings')),
+                'strip_equal': bool(c.get('strip_equal'))}
         eq, detail = P.compare_encode(c)
         if c['impl_enc'][0] == 'ok':
             # section 3: the descriptor list is packed F (2 bits) X (6) Y (8), 16 bits each, nothing dropped
@@ -234,6 +260,8 @@ def replay(ctx, rec):
     if c.get('vary_strings'):
         import random
         P.vary_string_lengths(cases[0], random.Random(c['seed'] ^ 0x5A5A5A))
+    if c.get('strip_equal'):
+        apply_strip_equal(cases[0])
     P.run_encode(cases); P.run_decode(cases)
     eq, detail = P.compare_encode(cases[0])
     if not eq:
